@@ -548,7 +548,13 @@ class TrajectoryStore:
         # to enable writing first.
         self.base_file = base_file
         self._write_enabled = True
-        self._create()
+
+        # The species dimension of the new files must hold the species of all
+        # the trajectories we are about to write, not only those of the first.
+        species: set[Species] = set()
+        for traj in self._trajectories.values():
+            species.update(traj.species)
+        self._create(species=sorted(species))
 
         # Write trajectories to the newly created files.
         for i in range(trajectories_to_save):
@@ -970,7 +976,11 @@ class TrajectoryStore:
         """Iterator over trajectories in store in index order."""
         return _TrajectoryStoreIterator(self)
 
-    def _create(self, proto: Trajectory | None = None):
+    def _create(
+        self,
+        proto: Trajectory | None = None,
+        species: list[Species] | None = None,
+    ):
         """Create a new NetCDF file (or files) for writing trajectories.
 
         There is one NetCDF group per field set, and more than one field set
@@ -995,7 +1005,8 @@ class TrajectoryStore:
 
         # Create the base NetCDF file.
         assert self.base_file is not None
-        species = proto.species
+        if species is None:
+            species = proto.species
         self._create_nc_file(self.base_file, base_nc_fieldsets, species)
 
         # Create the associated NetCDF files. The `associated_name` and
